@@ -233,6 +233,8 @@ pub enum Op {
     SetText(String),
     /// `get_attribute(name)` + `has_attribute(name)` are logged as an OpRes (ok = has).
     GetAttr(String),
+    /// `el.start_tag().set_name(..)` (unvalidated setter)
+    StSetName(String),
 }
 
 fn ct(html: bool) -> ContentType {
@@ -377,7 +379,7 @@ impl Cfg {
 /// A configuration with its selectors parsed once (selector parsing dominates otherwise).
 pub struct Prepared {
     pub cfg: Cfg,
-    pub selectors: Vec<Option<Selector>>,
+    pub selectors: Arc<Vec<Option<Selector>>>,
     pub encoding: &'static Encoding,
 }
 
@@ -400,9 +402,22 @@ impl Prepared {
             .ok_or_else(|| format!("unknown encoding {}", cfg.encoding))?;
         Ok(Prepared {
             cfg,
-            selectors,
+            selectors: Arc::new(selectors),
             encoding,
         })
+    }
+
+    /// Same handlers and selectors (shared, not re-parsed), other settings changed by `f`.
+    /// `f` must not touch `handlers` or `encoding`.
+    pub fn variant(&self, f: impl FnOnce(&mut Cfg)) -> Prepared {
+        let mut cfg = self.cfg.clone();
+        f(&mut cfg);
+        debug_assert!(cfg.handlers == self.cfg.handlers && cfg.encoding == self.cfg.encoding);
+        Prepared {
+            cfg,
+            selectors: self.selectors.clone(),
+            encoding: self.encoding,
+        }
     }
 }
 
@@ -490,6 +505,7 @@ macro_rules! apply_element_ops {
                 Op::StAfter(s, h) => el.start_tag().after(s, ct(*h)),
                 Op::StReplace(s, h) => el.start_tag().replace(s, ct(*h)),
                 Op::StRemove => el.start_tag().remove(),
+                Op::StSetName(n) => el.start_tag().set_name(n.clone()),
                 Op::GetAttr(n) => {
                     let has = el.has_attribute(n);
                     let v = el.get_attribute(n);
@@ -787,6 +803,8 @@ pub struct RunResult {
     pub events: Vec<Ev>,
     /// (usage, max) from the accounting hook after each successful write.
     pub mem_after: Vec<(usize, usize)>,
+    /// Number of handler invocations (the fault-injection index space).
+    pub handler_calls: usize,
 }
 
 impl RunResult {
@@ -910,6 +928,7 @@ pub fn run_opts(p: &Prepared, chunks: &[&[u8]], do_end: bool, after_error_probe:
     rr.sink = s.sink.clone();
     rr.out = s.out.clone();
     rr.events = s.events.clone();
+    rr.handler_calls = s.handler_calls;
     rr
 }
 
